@@ -7,13 +7,18 @@ package sugardb
 
 import (
 	"context"
+	"encoding/json"
 	"fmt"
+	"io"
 	"strings"
 	"time"
+
+	hraft "github.com/hashicorp/raft"
 
 	"github.com/echovault/sugardb/internal"
 	"github.com/echovault/sugardb/internal/config"
 	"github.com/echovault/sugardb/internal/constants"
+	"github.com/echovault/sugardb/internal/raft"
 	vr "github.com/echovault/sugardb/internal/verifrt"
 )
 
@@ -412,5 +417,154 @@ func Verif_C07_MultiKeyWriteUnderMemoryLimit() {
 	} else {
 		vr.Assert(lv == all, "C07.multikey_under_limit.ok_reply_means_all_written")
 	}
+	vr.Reach("end")
+}
+
+// ---- the state machine's snapshot and restore (what raft uses to bring a restarted, lagging or new
+// node up to date): a snapshot is the state at the log position it is taken at, and restoring it and
+// replaying the later entries reproduces the leader's dataset in every database ----
+
+type c07Sink struct{ buf []byte }
+
+func (k *c07Sink) Write(p []byte) (int, error) { k.buf = append(k.buf, p...); return len(p), nil }
+func (k *c07Sink) Close() error                { return nil }
+func (k *c07Sink) ID() string                  { return "2-7-1700000000000" }
+func (k *c07Sink) Cancel() error               { return nil }
+
+// c07Source is the io.ReadCloser raft hands to FSM.Restore.
+type c07Source struct {
+	buf []byte
+	pos int
+}
+
+func (r *c07Source) Read(p []byte) (int, error) {
+	if r.pos >= len(r.buf) {
+		return 0, io.EOF
+	}
+	n := copy(p, r.buf[r.pos:])
+	r.pos += n
+	return n, nil
+}
+func (r *c07Source) Close() error         { return nil }
+func (r *c07Source) VerifContent() []byte { return r.buf[r.pos:] }
+
+// c07FSM: the repository's raft state machine over a server's own keyspace functions.
+func c07FSM(s *SugarDB) hraft.FSM {
+	return raft.NewFSM(raft.FSMOpts{
+		Config:                s.config,
+		GetCommand:            s.getCommand,
+		SetValues:             s.setValues,
+		SetExpiry:             s.setExpiry,
+		Flush:                 s.Flush,
+		StartSnapshot:         s.startSnapshot,
+		FinishSnapshot:        s.finishSnapshot,
+		SetLatestSnapshotTime: s.setLatestSnapshot,
+		GetHandlerFuncParams:  s.getHandlerFuncParams,
+		DeleteKey: func(ctx context.Context, key string) error {
+			s.storeLock.Lock()
+			defer s.storeLock.Unlock()
+			return s.deleteKey(ctx, key)
+		},
+		GetState: func() map[int]map[string]internal.KeyData {
+			state := make(map[int]map[string]internal.KeyData)
+			for database, store := range s.getState() {
+				state[database] = make(map[string]internal.KeyData)
+				for k, v := range store {
+					if data, ok := v.(internal.KeyData); ok {
+						state[database][k] = data
+					}
+				}
+			}
+			return state
+		},
+	})
+}
+
+func c07Entry(index uint64, db int, cmd ...string) *hraft.Log {
+	b, err := json.Marshal(internal.ApplyRequest{Type: "command", ServerID: "SERVER-0", ConnectionID: "c", Protocol: 2, Database: db, CMD: cmd})
+	if err != nil {
+		panic("verif: marshal")
+	}
+	return &hraft.Log{Index: index, Term: 1, Type: hraft.LogCommand, Data: b}
+}
+
+func Verif_C07_SnapshotRestoreConverges() {
+	leader, node := verifServer(), verifServer()
+	lf, nf := c07FSM(leader), c07FSM(node)
+	dbs := []int{0, 1}
+	keys := []string{"a", "b", "l", "gone", "late"}
+	// value families: strings only, or also a list and a counter (which the JSON snapshot re-types:
+	// the known finding of C03/C09 - in cluster mode the restore then ends the process)
+	typed := vr.Choose("typed_values", 2) == 1
+	// the log: entries 1..4 are before the snapshot, 5.. after it
+	before := []*hraft.Log{
+		c07Entry(1, 0, "SET", "a", "start"),
+		c07Entry(2, 1, "SET", "b", "other-db"),
+		c07Entry(3, 0, "SET", "gone", "v"),
+		c07Entry(4, 0, "DEL", "gone"),
+	}
+	if typed {
+		before[1] = c07Entry(2, 1, "RPUSH", "l", "x")
+	}
+	var after []*hraft.Log
+	switch vr.Choose("later_writes", 3) {
+	case 1:
+		after = []*hraft.Log{c07Entry(5, 0, "APPEND", "a", "+x")}
+	case 2:
+		after = []*hraft.Log{c07Entry(5, 0, "APPEND", "a", "+x"), c07Entry(6, 1, "APPEND", "b", "+y"), c07Entry(7, 1, "SET", "late", "v")}
+		if typed {
+			after[2] = c07Entry(7, 0, "INCR", "late")
+		}
+	}
+	for _, e := range before {
+		lf.Apply(e)
+	}
+	// the node that will be restored may be a new one or one that lags behind: it has applied a prefix
+	lag := vr.Choose("node_has_applied", 4) // 0 (new node) .. 3 entries
+	for _, e := range before[:lag] {
+		nf.Apply(e)
+	}
+	snap, err := lf.Snapshot()
+	vr.Assert(err == nil, "C07.snapshot_restore.snapshot_succeeds")
+	if err != nil {
+		return
+	}
+	// raft persists the snapshot on another goroutine: entries may be applied in between
+	persistLater := vr.Choose("persist_after_later_writes", 2) == 1
+	sink := &c07Sink{}
+	if !persistLater {
+		vr.Assert(snap.Persist(sink) == nil, "C07.snapshot_restore.persist_succeeds")
+	}
+	for _, e := range after {
+		lf.Apply(e)
+	}
+	if persistLater {
+		vr.Assert(snap.Persist(sink) == nil, "C07.snapshot_restore.persist_succeeds")
+	}
+	snap.Release()
+	// the node installs the snapshot and replays what follows it
+	var rerr error
+	exited := false
+	func() {
+		defer func() {
+			if x := recover(); x != nil {
+				if !strings.Contains(fmt.Sprint(x), "process exit") {
+					panic(x)
+				}
+				exited = true
+			}
+		}()
+		rerr = nf.Restore(&c07Source{buf: sink.buf})
+	}()
+	vr.Assert(!exited, "C07.snapshot_restore.noexit")
+	if exited {
+		vr.Reach("end")
+		return
+	}
+	vr.Assert(rerr == nil, "C07.snapshot_restore.restore_succeeds")
+	for _, e := range after {
+		nf.Apply(e)
+	}
+	vr.Assert(c07View(node, dbs, keys...) == c07View(leader, dbs, keys...), "C07.snapshot_restore.restored_node_converges_to_the_leader")
 	vr.Reach("end")
 }
